@@ -158,7 +158,7 @@ def main():
                 fb[name] = ch.split("\n", 1)[1]
         json.dump(fb, open(fallback_path, "w"), indent=1, sort_keys=True)
     hdr = ("(* GENERATED by /verif/gen/extract.py from /repo's working tree on every run. Do not edit. *)\n"
-           "From Coq Require Import List ZArith Strings.Byte.\nImport ListNotations.\nOpen Scope Z_scope.\n\n")
+           "From Coq Require Import List ZArith Arith Strings.Byte.\nFrom WH Require Import lib.Layout.\nImport ListNotations.\nOpen Scope Z_scope.\n\n")
     out = hdr + "\n".join(chunks)
     path = os.path.join(VERIF, "coq", "gen", "Extracted.v")
     os.makedirs(os.path.dirname(path), exist_ok=True)
@@ -169,6 +169,8 @@ def main():
     return status
 
 if __name__ == "__main__":
-    st = main()
+    sys.path.insert(0, os.path.dirname(os.path.abspath(__file__)))
+    import extract as _self  # so that sibling modules share this module's Broken class
+    st = _self.main()
     for k, v in st.items():
         print(k, "ok" if v["ok"] else "BROKEN: " + v["error"])
